@@ -7,17 +7,28 @@ set -u
 ROOT="$(cd "$(dirname "${BASH_SOURCE[0]}")/.." && pwd)"
 DIR="${1:-/tmp/wt}"; SUF="${2:-b}"
 LAB=/tmp/lab
-LOG="$ROOT/logs/benign_all.log"; : > "$LOG"
-IDS="C01 C02 C03 C04 C06 C07 C08 C09 C10 C11 C12 C13 C14 C16 C17 C18"
+LOG="$ROOT/logs/benign_all.log"; touch "$LOG"
+ALL="C01 C02 C03 C04 C06 C07 C08 C09 C10 C11 C12 C13 C14 C16 C17 C18"
+# checks that exercise code of each crate (a patch can only affect checks that run code of a crate it touches)
+PUSH="C01 C02 C03 C04 C11 C12 C16 C18"
+LINEAR="C09 C10 C11 C12 C16 C17 C18"
+CORE="C06 C07 C08 C09 C13 C14 C16 C17 C18 C10 C11"
 for patch in "$DIR"/*"$SUF"/OUT/patch*.diff; do
   name="$(basename "$(dirname "$(dirname "$patch")")")/$(basename "$patch")"
+  grep -q "^$name:" "$LOG" && continue   # already done in an earlier (interrupted) invocation
   git -C "$LAB/repo" checkout -q -- . ; git -C "$LAB/repo" apply "$patch" || { echo "$name: does not apply" >> "$LOG"; continue; }
   bad=""
+  IDS=""
+  grep -q '^+++ b/packages/push/' "$patch" && IDS="$IDS $PUSH"
+  grep -q '^+++ b/packages/ec-linear/' "$patch" && IDS="$IDS $LINEAR"
+  grep -q '^+++ b/packages/ec-core/' "$patch" && IDS="$IDS $CORE"
+  grep -q '^+++ b/packages/.*-macros/' "$patch" && IDS="$ALL"
+  IDS="$(echo $IDS | tr ' ' '\n' | sort -u | tr '\n' ' ')"
   for id in $IDS; do
     out="$(cd "$LAB/verif" && VERIF_SKIP_MIRI=1 ./check "$id" quick 2>&1)"; rc=$?
     if [ $rc -ne 0 ]; then bad="$bad $id(rc=$rc:$(echo "$out" | grep -E 'key=|HARNESS' | head -2 | cut -c1-160 | tr '\n' ' '))"; fi
   done
   git -C "$LAB/repo" checkout -q -- .
   rm -f "$LAB"/verif/replays/C[0-9][0-9]-*.json
-  echo "$name:${bad:- all 16 checks silent}" | tee -a "$LOG"
+  echo "$name:${bad:- silent ($IDS)}" | tee -a "$LOG"
 done
